@@ -281,8 +281,8 @@ class Ctx:
             d = self.decisions[self.pos]
         else:
             if ft and ff:
-                d = True
-                self.new.append(self.decisions[:self.pos] + [False])
+                d = bool(getattr(self, 'prefer', True))      # second-pass explorations take the other side first
+                self.new.append(self.decisions[:self.pos] + [not d])
                 if FORK_TRACE is not None:
                     k = self.where() if self.where else '?'
                     FORK_TRACE[k] = FORK_TRACE.get(k, 0) + 1
